@@ -87,6 +87,13 @@ func PlayJournal(j []byte, pageSize uint32) JournalPlayback {
 			if ps != pageSize {
 				return out
 			}
+		}
+		// readJournalHdr: a header counts only if the file holds its whole sector
+		// (journalOff + JOURNAL_HDR_SZ > journalSize is SQLITE_DONE)
+		if off+int64(sector) > size {
+			return out
+		}
+		if first {
 			out.Valid = true
 			out.OrigPages = orig
 		}
